@@ -124,6 +124,29 @@ pub fn check_law(law: &Law, g: &SymbolicAsyncGraph, p: &GraphColoredVertices, q:
     }
 }
 
+/// The same law with both sides submitted as ONE batch to the multi-formula entry point (the two sides
+/// of most laws differ in which operators they contain, so per-batch decisions show here).
+pub fn check_law_batch(law: &Law, g: &SymbolicAsyncGraph, p: &GraphColoredVertices, q: Option<&GraphColoredVertices>, r: Option<&GraphColoredVertices>) -> Option<String> {
+    let ctx = ctx_of(p, q, r);
+    for order in [[law.lhs, law.rhs], [law.rhs, law.lhs]] {
+        let res = match guarded(AssertUnwindSafe(|| mc::model_check_multiple_extended_formulae_dirty(order.to_vec(), g, &ctx))) {
+            Ok(Ok(v)) if v.len() == 2 => v,
+            Ok(Ok(v)) => return Some(format!("law `{}`: batch of 2 returns {} results", law.name, v.len())),
+            Ok(Err(e)) => return Some(format!("law `{}`: batch evaluation fails: Err({e})", law.name)),
+            Err(pn) => return Some(format!("law `{}`: batch evaluation fails: panic({pn})", law.name)),
+        };
+        let (a, b) = if order[0] == law.lhs { (&res[0], &res[1]) } else { (&res[1], &res[0]) };
+        let ok = match law.rel {
+            Rel::Eq => a == b,
+            Rel::Sub => a.is_subset(b),
+        };
+        if !ok {
+            return Some(format!("law `{}`: {} {} {} does not hold when both sides are evaluated as the batch {order:?}", law.name, law.lhs, if law.rel == Rel::Eq { "=" } else { "subset of" }, law.rhs));
+        }
+    }
+    None
+}
+
 /// The graph-library laws on one argument pair (p, q).
 pub fn check_library(g: &SymbolicAsyncGraph, p: &GraphColoredVertices, q: &GraphColoredVertices) -> Option<String> {
     let ctx = ctx_of(p, Some(q), None);
@@ -179,6 +202,9 @@ pub fn replay(case: &Value) -> Option<String> {
         return check_library(&b.graph, &p, &q);
     }
     let law = all.iter().find(|l| l.name == law_name)?;
+    if case["batch"].as_bool().unwrap_or(false) {
+        return check_law_batch(law, &b.graph, &p, Some(&q), Some(&r));
+    }
     check_law(law, &b.graph, &p, Some(&q), Some(&r))
 }
 
@@ -344,10 +370,17 @@ pub fn run(tier: &str) -> Result<Report, String> {
                     for &qi in &qs {
                         for &ri in &rs {
                             cases += 1;
-                            if let Some(w) = check_law(law, &b.graph, &sets[pi], Some(&sets[qi]), Some(&sets[ri])) {
+                            let mut w = check_law(law, &b.graph, &sets[pi], Some(&sets[qi]), Some(&sets[ri]));
+                            let mut batch = false;
+                            if w.is_none() && qi == qs[0] && ri == rs[0] {
+                                cases += 1;
+                                batch = true;
+                                w = check_law_batch(law, &b.graph, &sets[pi], Some(&sets[qi]), Some(&sets[ri]));
+                            }
+                            if let Some(w) = w {
                                 if bad.len() < 5 {
                                     bad.push(Violation {
-                                        case: json!({"kind": "law", "law": law.name, "net": b.spec, "aeon": b.aeon, "p": sets_m[pi], "q": sets_m[qi], "r": sets_m[ri]}),
+                                        case: json!({"kind": "law", "law": law.name, "net": b.spec, "aeon": b.aeon, "p": sets_m[pi], "q": sets_m[qi], "r": sets_m[ri], "batch": batch}),
                                         what: format!("on {} with p={:?} q={:?} r={:?}: {w}", b.name, sets_m[pi], sets_m[qi], sets_m[ri]),
                                         size: 1,
                                     });
@@ -465,6 +498,6 @@ pub fn run(tier: &str) -> Result<Report, String> {
     rep.distinct_nontrivial = rep.extra.get("law_instances_tiny").and_then(|v| v.as_u64()).unwrap_or(0) + big_total;
     rep.set("laws", json!(all.iter().map(|l| format!("{}: {} {} {}", l.name, l.lhs, if l.rel == Rel::Eq { "=" } else { "⊆" }, l.rhs)).collect::<Vec<_>>()));
     rep.sample(json!({"law": "AU fixed point", "network": "con2", "p": [5, 9], "q": [2, 0], "meaning": "per-colour state masks of the wild-card sets; both sides evaluated by the tool and compared as sets"}));
-    rep.rule = format!("{} laws (fixed-point equations, dualities, inclusions, monotonicity in every argument, steady states as self-loops) + 3 graph-library laws (EF = reach_backward, AG = trap_forward, EU = reach_bwd in the restricted graph), each instantiated with wild-card arguments: on the tiny networks {which:?} with EVERY coloured set as p (all pairs (p,q) when the network has <= 16 sets, or <= 256 in the thorough tier; otherwise q from a spread of 16, r from a spread of 4), anchored by the explicit-state oracle; on the bundled models {models:?} with a declared family (literals, conjunctions/disjunctions of two literals over the first 4 variables, each also cut by each half of the colour space, empty, unit, results of two formulae). distinct_nontrivial = number of law instances (distinct (law, argument tuple, network))", all.len());
+    rep.rule = format!("{} laws (fixed-point equations, dualities, inclusions, monotonicity in every argument, steady states as self-loops) + 3 graph-library laws (EF = reach_backward, AG = trap_forward, EU = reach_bwd in the restricted graph), each instantiated with wild-card arguments (on the tiny networks every law x first-argument set also with both sides submitted as one batch, in both orders, to model_check_multiple_extended_formulae_dirty): on the tiny networks {which:?} with EVERY coloured set as p (all pairs (p,q) when the network has <= 16 sets, or <= 256 in the thorough tier; otherwise q from a spread of 16, r from a spread of 4), anchored by the explicit-state oracle; on the bundled models {models:?} with a declared family (literals, conjunctions/disjunctions of two literals over the first 4 variables, each also cut by each half of the colour space, empty, unit, results of two formulae). distinct_nontrivial = number of law instances (distinct (law, argument tuple, network))", all.len());
     Ok(rep)
 }
